@@ -2,7 +2,7 @@
 # usage: tools/confirm_seed.sh <PROP> <m1|m2>     (developer aid; never touches /repo's working tree)
 # Confirms a seeded change delivered under /tmp/seed-<PROP>/<m>/ in a scratch worktree:
 #   demo passes without the patch, fails with it, and the full existing suite passes with it.
-P="$1"; M="$2"; SRC=/tmp/seed-$P/$M; WT=/var/tmp/confirm-$P-$M
+P="$1"; M="$2"; SRC=${SEEDROOT:-/tmp/seed}-$P/$M; WT=/var/tmp/confirm-$P-$M
 export CARGO_TARGET_DIR=/var/tmp/seed-target CARGO_NET_OFFLINE=true
 OUT=$SRC/confirm.txt; : > $OUT
 git -C /repo worktree remove --force $WT 2>/dev/null; rm -rf $WT
